@@ -788,6 +788,18 @@ fn prog_state(consts: &Value) {
         hs.push(shuttle::thread::spawn(move || {
             let mut id = StateId::new();
             loop {
+                if choice(3) == 0 {
+                    // a non-blocking look first
+                    let idn = id.verif_value();
+                    let (r, i) = call(json!({"op": "try_recv", "id": idn}), || ch.try_receive(id));
+                    match r {
+                        Some((sid, x)) => {
+                            set_res(i, json!({"res": "some", "sid": sid.verif_value(), "v": x}));
+                            id = sid;
+                        }
+                        None => set_res(i, json!({"res": "none", "sid": 0, "v": 0})),
+                    }
+                }
                 let idn = id.verif_value();
                 let (fut, _) = call(json!({"op": "create", "r": t, "id": idn}), || ch.receive(id));
                 let mut fut = Box::pin(fut);
@@ -856,6 +868,18 @@ fn prog_state_shared(consts: &Value) {
             let mut id = StateId::new();
             let mut got = 0;
             loop {
+                if choice(3) == 0 {
+                    // a non-blocking look first
+                    let idn = id.verif_value();
+                    let (r, i) = call(json!({"op": "try_recv", "id": idn}), || rxt.try_receive(id));
+                    match r {
+                        Some((sid, x)) => {
+                            set_res(i, json!({"res": "some", "sid": sid.verif_value(), "v": x}));
+                            id = sid;
+                        }
+                        None => set_res(i, json!({"res": "none", "sid": 0, "v": 0})),
+                    }
+                }
                 let idn = id.verif_value();
                 let (fut, _) = call(json!({"op": "create", "r": t, "id": idn}), || rxt.receive(id));
                 let mut fut = Box::pin(fut);
@@ -1064,6 +1088,25 @@ fn main() {
                 "panic"
             };
             let short: String = msg.chars().take(160).collect();
+            if kind == "panic" {
+                // calls that were in flight when the run was torn down never returned a result (the one
+                // that panicked is among them, the others were suspended at a scheduling point): the
+                // trace ends in front of the first event of such a call; everything before is complete
+                let open: Vec<(Option<usize>, u64)> =
+                    with_rec(|r| r.ctx.values().filter(|c| c.op.is_some()).map(|c| (c.ev, c.cid)).collect());
+                let mut cut = log.len();
+                for (ev, cid) in open {
+                    if let Some(i) = ev {
+                        cut = cut.min(i);
+                    }
+                    for (i, e) in log.iter().enumerate() {
+                        if e.get("cid").and_then(|c| c.as_u64()) == Some(cid) {
+                            cut = cut.min(i);
+                        }
+                    }
+                }
+                log.truncate(cut);
+            }
             log.push(json!({"op": "abort", "res": kind, "msg": short, "wakes": [], "taken": []}));
         }
         mark_multi(&mut log);
